@@ -54,9 +54,9 @@ class QuaMap(Map[QuaNoteList, QuaHitList, QuaHoldList, QuaBpmList], QuaMapMeta):
         )
 
         # We pop them to reduce the size needed to pass to _readMeta
-        m._read_notes(file.pop("HitObjects"))
-        m._read_bpms(file.pop("TimingPoints"))
-        m._read_svs(file.pop("SliderVelocities"))
+        m._read_notes(file.pop("HitObjects", None) or [])
+        m._read_bpms(file.pop("TimingPoints", None) or [])
+        m._read_svs(file.pop("SliderVelocities", None) or [])
         m._read_metadata(file)
 
         return m
